@@ -12,12 +12,27 @@ package keeper
 //@   let lf0 = k.GetLend(ctx, lendID).1
 //@   ensures [C12] #c12-owner: err == nil ==> lf0 && addr == l0.Owner
 //@   fails_if [C14] #c14-breaker: lf0 && breakerOn(k, ctx, l0.AppID)
-//@   ensures [C08] #c08-never-pledged-collateral: err == nil ==> withdrawal.Amount <= l0.AvailableToBorrow
+//@   let st0 = k.GetAssetStatsByPoolIDAndAssetID(ctx, l0.PoolID, l0.AssetID).0
+//@   requires [C08] #lend-keyed: lf0 ==> l0.ID == lendID && l0.AvailableToBorrow >= 0 && l0.AmountIn.Amount >= 0
+//@   requires [C08] #stats-keyed: lf0 ==> k.GetAssetStatsByPoolIDAndAssetID(ctx, l0.PoolID, l0.AssetID).1 && st0.PoolID == l0.PoolID && st0.AssetID == l0.AssetID
+//@   letpost l1 = k.GetLend(ctx, lendID)
+//@   letpost st1 = k.GetAssetStatsByPoolIDAndAssetID(ctx, l0.PoolID, l0.AssetID).0
+//@   ensures [C08] #c08-books-delta: err == nil && l1.1 ==> st1.TotalLend - l1.0.AvailableToBorrow == st0.TotalLend - l0.AvailableToBorrow
+//@   ensures [C08] #c08-books-delta-closed: err == nil && !l1.1 ==> st1.TotalLend == st0.TotalLend - l0.AvailableToBorrow
+//@   ensures [C08] #c08-never-pledged-collateral: err == nil && l1.1 ==> l1.0.AvailableToBorrow >= 0
+//@   ensures [C08] #c08-close-needs-no-borrow: err == nil && !l1.1 ==> len(k.GetUserLendBorrowMapping(ctx, l0.Owner, lendID).0.BorrowId) == 0
 
 //@ func (k Keeper) DepositAsset
-//@   property C12, C14
+//@   property C12, C14, C08
 //@   let l0 = k.GetLend(ctx, lendID).0
 //@   let lf0 = k.GetLend(ctx, lendID).1
+//@   let st0 = k.GetAssetStatsByPoolIDAndAssetID(ctx, l0.PoolID, l0.AssetID).0
+//@   requires [C08] #lend-keyed: lf0 ==> l0.ID == lendID && l0.AvailableToBorrow >= 0 && l0.AmountIn.Amount >= 0
+//@   requires [C08] #stats-keyed: lf0 ==> k.GetAssetStatsByPoolIDAndAssetID(ctx, l0.PoolID, l0.AssetID).1 && st0.PoolID == l0.PoolID && st0.AssetID == l0.AssetID
+//@   letpost l1 = k.GetLend(ctx, lendID).0
+//@   letpost st1 = k.GetAssetStatsByPoolIDAndAssetID(ctx, l0.PoolID, l0.AssetID).0
+//@   ensures [C08] #c08-books-delta: err == nil ==> st1.TotalLend - l1.AvailableToBorrow == st0.TotalLend - l0.AvailableToBorrow
+//@   ensures [C08] #c08-deposit-credited: err == nil ==> l1.AvailableToBorrow >= l0.AvailableToBorrow + deposit.Amount && l1.AmountIn.Amount == l0.AmountIn.Amount + deposit.Amount
 //@   ensures [C12] #c12-owner: err == nil ==> lf0 && addr == l0.Owner
 //@   fails_if [C14] #c14-breaker: lf0 && breakerOn(k, ctx, l0.AppID)
 
@@ -25,8 +40,36 @@ package keeper
 //@   property C12, C14, C08
 //@   let l0 = k.GetLend(ctx, lendID).0
 //@   let lf0 = k.GetLend(ctx, lendID).1
+//@   let st0 = k.GetAssetStatsByPoolIDAndAssetID(ctx, l0.PoolID, l0.AssetID).0
+//@   requires [C08] #lend-keyed: lf0 ==> l0.ID == lendID && l0.AvailableToBorrow >= 0 && l0.AmountIn.Amount >= 0
+//@   requires [C08] #stats-keyed: lf0 ==> k.GetAssetStatsByPoolIDAndAssetID(ctx, l0.PoolID, l0.AssetID).1 && st0.PoolID == l0.PoolID && st0.AssetID == l0.AssetID
+//@   letpost st1 = k.GetAssetStatsByPoolIDAndAssetID(ctx, l0.PoolID, l0.AssetID).0
+//@   ensures [C08] #c08-books-delta-closed: err == nil ==> !k.GetLend(ctx, lendID).1 && st1.TotalLend == st0.TotalLend - l0.AvailableToBorrow
+//@   ensures [C08] #c08-close-needs-no-borrow: err == nil ==> len(k.GetUserLendBorrowMapping(ctx, l0.Owner, lendID).0.BorrowId) == 0
 //@   ensures [C12] #c12-owner: err == nil ==> lf0 && addr == l0.Owner
 //@   fails_if [C14] #c14-breaker: lf0 && breakerOn(k, ctx, l0.AppID)
+
+// Reward accrual of one lend position (C08): whatever is credited to the position is credited to the published pool total
+// too, so (pool total - this position's available amount) does not move; principal and identity of the position and every
+// other position are untouched.
+//@ func (k Keeper) IterateLends
+//@   property C08
+//@   modular
+//@   modifies lend, bank
+//@   let l0 = k.GetLend(ctx, ID).0
+//@   let lf0 = k.GetLend(ctx, ID).1
+//@   let st0 = k.GetAssetStatsByPoolIDAndAssetID(ctx, l0.PoolID, l0.AssetID).0
+//@   requires #lend-keyed: lf0 ==> l0.ID == ID
+//@   requires #stats-keyed: lf0 ==> k.GetAssetStatsByPoolIDAndAssetID(ctx, l0.PoolID, l0.AssetID).1 && st0.PoolID == l0.PoolID && st0.AssetID == l0.AssetID
+//@   letpost l1 = k.GetLend(ctx, ID).0
+//@   letpost st1 = k.GetAssetStatsByPoolIDAndAssetID(ctx, l0.PoolID, l0.AssetID).0
+//@   ensures #c08-accrual-books-delta: result1 == nil && lf0 ==> st1.TotalLend - l1.AvailableToBorrow == st0.TotalLend - l0.AvailableToBorrow
+//@   ensures #c08-accrual-stats-keyed: result1 == nil && lf0 ==> k.GetAssetStatsByPoolIDAndAssetID(ctx, l0.PoolID, l0.AssetID).1 && st1.PoolID == st0.PoolID && st1.AssetID == st0.AssetID
+//@   ensures #c08-accrual-never-lowers: result1 == nil && lf0 ==> l1.AvailableToBorrow >= l0.AvailableToBorrow
+//@   ensures #c08-accrual-keeps-position: result1 == nil && lf0 ==> k.GetLend(ctx, ID).1 && l1.ID == l0.ID && l1.Owner == l0.Owner && l1.AssetID == l0.AssetID && l1.PoolID == l0.PoolID && l1.AppID == l0.AppID && l1.AmountIn == l0.AmountIn
+//@   ensures #c08-accrual-frame: result1 == nil ==> forall j :: j != ID ==> k.GetLend(ctx, j) == old(k.GetLend(ctx, j))
+//@   ensures #c08-accrual-mapping-frame: result1 == nil ==> forall o, j :: k.GetUserLendBorrowMapping(ctx, o, j) == old(k.GetUserLendBorrowMapping(ctx, o, j))
+//@   ensures #c08-accrual-missing: !lf0 ==> true
 
 // ---- interest-rate model (C18) ----
 // The borrow rate equals the two-segment spec function of the pool utilisation u (18-digit fixed point):
@@ -90,3 +133,77 @@ package keeper
 //@ func (k Keeper) GetBorrows
 //@   property C15, C09
 //@   pure
+
+// ---- loan-to-value (C08) ----
+// The LTV gate: success means both oracle prices are available and value(debt) / value(collateral) <= the threshold,
+// computed by the chain's own fixed-point ratio function.
+//@ func (k Keeper) CalculateCollateralizationRatio
+//@   property C08
+//@   pure
+
+//@ func (k Keeper) VerifyCollateralizationRatio
+//@   property C08
+//@   ensures #c08-ltv-gate: result == nil ==> k.CalculateCollateralizationRatio(ctx, amountIn, assetIn, amountOut, assetOut).1 == nil && k.CalculateCollateralizationRatio(ctx, amountIn, assetIn, amountOut, assetOut).0 <= liquidationThreshold
+//@   ensures #c08-ltv-gate-rejects: result != nil <==> (k.CalculateCollateralizationRatio(ctx, amountIn, assetIn, amountOut, assetOut).1 != nil || k.CalculateCollateralizationRatio(ctx, amountIn, assetIn, amountOut, assetOut).0 > liquidationThreshold)
+
+// New borrow against a lend position (same-pool pairs): the LTV gate was passed with the pledged amount and the loan, the
+// lending pool held the loan, the pledged amount leaves the position's available amount, the published borrowed total of
+// the borrowed asset grows by exactly the loan.
+//@ func (k Keeper) BorrowAsset
+//@   property C08, C12, C14
+//@   let l0 = k.GetLend(ctx, lendID).0
+//@   let lf0 = k.GetLend(ctx, lendID).1
+//@   let pair = k.GetLendPair(ctx, pairID).0
+//@   let rs = k.GetAssetRatesParams(ctx, pair.AssetIn).0
+//@   let ltv = ite(pair.IsEModeEnabled, rs.ELtv, rs.Ltv)
+//@   let ain = k.Asset.GetAsset(ctx, l0.AssetID).0
+//@   let aout = k.Asset.GetAsset(ctx, pair.AssetOut).0
+//@   let fresh = !k.HasBorrowForAddressByPair(ctx, addr, pairID) && !pair.IsInterPool
+//@   let so0 = k.GetAssetStatsByPoolIDAndAssetID(ctx, pair.AssetOutPoolID, pair.AssetOut).0
+//@   let outmod = addr(k.GetPool(ctx, pair.AssetOutPoolID).0.ModuleName)
+//@   requires #lend-keyed: lf0 ==> l0.ID == lendID && l0.AvailableToBorrow >= 0
+//@   prune
+//@   requires #same-pool-pair: !pair.IsInterPool
+//@   requires #new-position: !k.HasBorrowForAddressByPair(ctx, addr, pairID)
+//@   letpost l1 = k.GetLend(ctx, lendID).0
+//@   letpost so1 = k.GetAssetStatsByPoolIDAndAssetID(ctx, pair.AssetOutPoolID, pair.AssetOut).0
+//@   ensures [C12] #c12-owner: err == nil ==> lf0 && addr == l0.Owner
+//@   fails_if [C14] #c14-breaker: lf0 && breakerOn(k, ctx, l0.AppID)
+//@   ensures [C08] #c08-ltv: err == nil && fresh ==> k.CalculateCollateralizationRatio(ctx, AmountIn.Amount, ain, loan.Amount, aout).1 == nil && k.CalculateCollateralizationRatio(ctx, AmountIn.Amount, ain, loan.Amount, aout).0 <= ltv
+//@   requires #out-stats-keyed: k.GetAssetStatsByPoolIDAndAssetID(ctx, pair.AssetOutPoolID, pair.AssetOut).1 ==> so0.PoolID == pair.AssetOutPoolID && so0.AssetID == pair.AssetOut
+//@   ensures [C08] #c08-pool-holds-loan: err == nil ==> loan.Amount <= old(bal(modaddr(k.GetPool(ctx, pair.AssetOutPoolID).0.ModuleName), loan.Denom)) && loan.Denom == aout.Denom
+//@   ensures [C08] #c08-borrowed-total-moves-with-loan: err == nil && k.GetAssetStatsByPoolIDAndAssetID(ctx, pair.AssetOutPoolID, pair.AssetOut).1 ==> so1.TotalBorrowed + so1.TotalStableBorrowed == so0.TotalBorrowed + so0.TotalStableBorrowed + loan.Amount
+//@   ensures [C08] #c08-pledge-from-available: err == nil && fresh ==> AmountIn.Amount <= l0.AvailableToBorrow && l1.AvailableToBorrow == l0.AvailableToBorrow - AmountIn.Amount
+
+// Read-only lookups that scan lists: deterministic functions of the lend store (abstracted as such at call sites).
+//@ func (k Keeper) HasBorrowForAddressByPair
+//@   property C08
+//@   pure
+
+//@ func (k Keeper) GetBorrowIDForAddressByPair
+//@   property C08
+//@   pure
+
+//@ func (k Keeper) IsPoolDepreciated
+//@   property C08
+//@   pure
+
+//@ func (k Keeper) CheckIsolatedModeForBorrow
+//@   property C08
+//@   pure
+
+// Draw more debt on an open borrow (C08): after accrual, principal + accrued interest + the new loan passed the LTV gate
+// against the pledged collateral; the pool held the coins.
+//@ func (k Keeper) DrawAsset
+//@   property C08
+//@   let b0 = k.GetBorrow(ctx, borrowID).0
+//@   let pair = k.GetLendPair(ctx, b0.PairID).0
+//@   let l0 = k.GetLend(ctx, b0.LendingID).0
+//@   let rs = k.GetAssetRatesParams(ctx, pair.AssetIn).0
+//@   let ltv = ite(pair.IsEModeEnabled, rs.ELtv, rs.Ltv)
+//@   let ain = k.Asset.GetAsset(ctx, l0.AssetID).0
+//@   let aout = k.Asset.GetAsset(ctx, pair.AssetOut).0
+//@   requires #borrow-keyed: k.GetBorrow(ctx, borrowID).1 ==> b0.ID == borrowID
+//@   letpost b1 = k.GetBorrow(ctx, borrowID).0
+//@   ensures #c08-ltv-after-draw: err == nil ==> k.CalculateCollateralizationRatio(ctx, b1.AmountIn.Amount, ain, b1.AmountOut.Amount + trunc(b1.InterestAccumulated), aout).1 == nil && k.CalculateCollateralizationRatio(ctx, b1.AmountIn.Amount, ain, b1.AmountOut.Amount + trunc(b1.InterestAccumulated), aout).0 <= ltv
+//@   ensures #c08-draw-not-liquidated: err == nil ==> !b0.IsLiquidated
